@@ -186,7 +186,8 @@ def who():
 
 KINDS = {"Injected": InjectedError, "AssertionError": AssertionError, "EOFError": EOFError, "BrokenPipeError": BrokenPipeError,
          "FileNotFoundError": FileNotFoundError, "ValueError": ValueError, "KeyError": KeyError, "TypeError": TypeError,
-         "TimeoutError": TimeoutError, "RuntimeError": RuntimeError, "IndexError": IndexError}
+         "TimeoutError": TimeoutError, "RuntimeError": RuntimeError, "IndexError": IndexError, "AttributeError": AttributeError,
+         "ImportError": ImportError, "OSError": OSError, "StopIteration-like": LookupError}
 
 def make_exc(kind, item):
     if kind == "die":
